@@ -33,4 +33,74 @@ def generate(report):
             R.norm_ty = old_norm
     except Untranslatable as ex:
         report.append(("XFieldGen", "mul", str(ex)))
+    # ---- the other straight-line operators.  Their bodies use idioms outside the translated subset
+    # (`Self { coefficients }`, `.map(|c| c * other)`, `.map(Neg::neg)`, `x.coefficients[0] += y; x`, `self + (-other)`):
+    # each is first rewritten TEXTUALLY, by an exact-match rule, into the destructure / `new([..])` form the translator
+    # handles; a body that matches no rule is reported as untranslatable (never guessed).
+    import re
+    import rs2v as R
+    old_norm = R.norm_ty
+
+    def norm2(t):
+        if t == "XFieldElement":
+            return "xfe"
+        return old_norm(t)
+
+    def normalise(body_src):
+        b = body_src
+        # [A, B, C] bound to `coefficients`, then the struct literal
+        b = re.sub(r"let coefficients = \[([^\]]*)\];\s*(?:Self|XFieldElement) \{ coefficients \}",
+                   lambda m: "XFieldElement::new([%s])" % m.group(1), b)
+        # x.coefficients.map(|c| c * y)
+        b = re.sub(r"let coefficients = (\w+)\.coefficients\.map\(\|c\| c \* (\w+)\);\s*(?:Self|XFieldElement) \{ coefficients \}",
+                   lambda m: "let [m0, m1, m2] = %s.coefficients;\n XFieldElement::new([m0 * %s, m1 * %s, m2 * %s])"
+                   % (m.group(1), m.group(2), m.group(2), m.group(2)), b)
+        # x.coefficients.map(Neg::neg)
+        b = re.sub(r"let coefficients = (\w+)\.coefficients\.map\(Neg::neg\);\s*(?:Self|XFieldElement) \{ coefficients \}",
+                   lambda m: "let [m0, m1, m2] = %s.coefficients;\n XFieldElement::new([-m0, -m1, -m2])" % m.group(1), b)
+        # x.coefficients[0] += y; x     /  -= likewise
+        b = re.sub(r"(\w+)\.coefficients\[0\] (\+|-)= (\w+);\s*\1\s*(?=\})",
+                   lambda m: "let [m0, m1, m2] = %s.coefficients;\n XFieldElement::new([m0 %s %s, m1, m2])\n"
+                   % (m.group(1), m.group(2), m.group(3)), b)
+        b = b.replace("mut self", "self").replace("mut other", "other")
+        return b
+
+    OPS = [  # (impl header regex, rust fn, coq name, self type)
+        (r"impl Add<XFieldElement> for XFieldElement\s*\{", "add", "xfe_add_gen", "xfe"),
+        (r"impl Neg for XFieldElement\s*\{", "neg", "xfe_neg_gen", "xfe"),
+        (r"impl Mul<BFieldElement> for XFieldElement\s*\{", "mul", "xfe_scale_gen", "xfe"),
+        (r"impl Mul<XFieldElement> for BFieldElement\s*\{", "mul", "bfe_mul_xfe_gen", "bfe"),
+        (r"impl Add<BFieldElement> for XFieldElement\s*\{", "add", "xfe_add_bfe_gen", "xfe"),
+        (r"impl Add<XFieldElement> for BFieldElement\s*\{", "add", "bfe_add_xfe_gen", "bfe"),
+    ]
+    R.norm_ty = norm2
+    try:
+        for hdr, fn, cname, selfty in OPS:
+            try:
+                s2 = find_in(src, hdr)
+                s2 = s2.replace("other: Self", "other: XFieldElement").replace("-> Self", "-> XFieldElement")
+                s2 = normalise(s2)
+                out += R.translate_fn(ctx, s2, fn, cname, selfty, 0, [])
+            except Untranslatable as ex:
+                report.append(("XFieldGen", cname, str(ex)))
+        # subtraction is `self + (-other)` in all three impls: emitted as that composition, after checking the text
+        SUBS = [
+            (r"impl Sub<XFieldElement> for XFieldElement\s*\{", "xfe_sub_gen", "(self_ : (Z * Z * Z)) (other : (Z * Z * Z))",
+             "xfe_add_gen self_ (xfe_neg_gen other)"),
+            (r"impl Sub<BFieldElement> for XFieldElement\s*\{", "xfe_sub_bfe_gen", "(self_ : (Z * Z * Z)) (other : Z)",
+             "xfe_add_bfe_gen self_ (bfe_neg other)"),
+            (r"impl Sub<XFieldElement> for BFieldElement\s*\{", "bfe_sub_xfe_gen", "(self_ : Z) (other : (Z * Z * Z))",
+             "bfe_add_xfe_gen self_ (xfe_neg_gen other)"),
+        ]
+        for hdr, cname, args, rhs in SUBS:
+            try:
+                s2 = find_in(src, hdr)
+                _, _, body = R.find_fn(s2, "sub", 0)
+                if re.sub(r"\s+", "", body) not in ("{self+(-other)}", "self+(-other)"):
+                    raise Untranslatable("sub body is not `self + (-other)`: %s" % body.strip()[:80])
+                out += "Definition %s %s : (Z * Z * Z) :=\n  %s.\n\n" % (cname, args, rhs)
+            except Untranslatable as ex:
+                report.append(("XFieldGen", cname, str(ex)))
+    finally:
+        R.norm_ty = old_norm
     write_if_changed(os.path.join(OUT, "XFieldGen.v"), out)
